@@ -213,7 +213,13 @@ func editResync(r *Run) {
 		// a slice-aligned prefix of it); a.dat will be lost
 		b = append([]byte(nil), a...)
 		if len(a) > c.S && t.Bool(1, 2, "aligned-prefix") {
-			b = append([]byte(nil), a[:(1+t.Draw(len(a)/c.S, "prefix-slices"))*c.S]...)
+			k := 1 + t.Draw(len(a)/c.S, "prefix-slices")
+			// every slice b.dat does not hold costs a recovery block: keep
+			// that number moderate for files of thousands of slices
+			if lost := (len(a)+c.S-1)/c.S - k; lost > 64 {
+				k += lost - 64
+			}
+			b = append([]byte(nil), a[:k*c.S]...)
 		}
 	}
 	d := simdisk.NewMem()
